@@ -17,7 +17,7 @@ RULE = ("lists of 1-4 scripts: adversarial witnesses (RETURN at depth 0-3 inside
         "of length 0-48; initial caches incl. the string key 'returned'; limit triples from 1 upward; non-trivial = the list executes at least "
         "one non-push instruction; distinct = distinct (limits, cache, scripts)")
 
-W_OPS = ['TRUE', 'FALSE', 'PUSH1', 'RETURN', 'RETURN', 'RETURN', 'IF', 'IF_ELSE', 'TRY_EXCEPT', 'LOOP', 'DEF', 'CALL', 'EVAL', 'WRITE_CACHE',
+W_OPS = ['RECTRY', 'TRUE', 'FALSE', 'PUSH1', 'RETURN', 'RETURN', 'RETURN', 'IF', 'IF_ELSE', 'TRY_EXCEPT', 'LOOP', 'DEF', 'CALL', 'EVAL', 'WRITE_CACHE',
          'POP0', 'DUP', 'DEPTH', 'VERIFY', 'NOP']
 
 
@@ -49,6 +49,9 @@ def locks(rng, keys, cache, gen):
         op('READ_CACHE') + b'\x01k' + op('CHECK_SIG') + b'\x00',
         op('DEPTH') + push(b'\x01') + op('EQUAL_VERIFY') + op('TRUE'),
         push(hashlock) + op('EVAL'),
+        deff(0, tri(iff(op('FALSE') + op('CALL') + b'\x00'), b'') + hashlock) + op('CALL') + b'\x00',
+        deff(0, tri(iff(op('FALSE') + op('CALL') + b'\x00'), op('POP0')) + checksig) + op('CALL') + b'\x00',
+        deff(1, tri(op('DEPTH') + push(b'\x01') + op('EQUAL') + iff(push(b'\x00') + op('CALL') + b'\x01') + op('FALSE') + op('VERIFY'), b'') + op('POP0') + hashlock) + op('CALL') + b'\x01',
         op('TRUE'), op('VERIFY') + op('TRUE'), b'',
     ]
     return rng.choice(L), pre, pk
@@ -60,7 +63,7 @@ def witnesses(rng, keys, cache, cfg, pre, pk):
     r = rng.random()
     ki = keys.pks.index(pk) if pk in keys.pks else 0
     sig = keys.sks[ki].sign(G.ref_message(cache, 0)).signature
-    honest = rng.choice([push(sig), push(pre), push(sig) + op('TRUE'), push(pre) + op('TRUE'), op('TRUE'), op('TRUE') + op('TRUE')])
+    honest = rng.choice([push(sig), push(pre), push(sig) + op('TRUE'), push(pre) + op('TRUE'), op('TRUE'), op('TRUE') + op('TRUE'), push(b'junk') + op('TRUE'), push(b'junk')])
     if r < .25: return honest
     if r < .5: return honest + g.program(rng.choice([1, 2, 3]))
     if r < .75: return g.program(rng.choice([1, 2, 3])) + honest
@@ -162,6 +165,10 @@ def run(ctx: Ctx) -> Result:
                 verdicts[v] = verdicts.get(v, 0) + 1
                 if not ok:
                     suspicious.append(c)
+                    if why == 'verdict' and len([x for x in res.violations if x.get('kind_') == 'verdict']) < 3:
+                        res.violations.append({'kind_': 'verdict', 'input': {'cfg': c[0].line(), 'cache': vmrun.cache_str(c[1], False), 'scripts': [s.hex() for s in c[2]]},
+                                               'expected': 'verdict of the reference semantics (Lean model, proved to satisfy C01): ' + r[:120],
+                                               'observed': 'implementation: ' + o[:120], 'how_to_run': './check C01 --replay <this file>'})
                     res.disagreements.append({'cfg': c[0].line(), 'cache': vmrun.cache_str(c[1], False)[:200], 'scripts': [s.hex() for s in c[2]],
                                               'why': why, 'model': r[:200], 'impl': o[:200]})
     else:
@@ -213,4 +220,9 @@ def replay(ctx: Ctx, payload) -> bool:
     scripts = [bytes.fromhex(s) for s in inp['scripts']]
     v, problems = vmrun.in_big_thread(judge, cfg, cache, scripts)
     print('verdict', v, 'problems', problems)
+    if ctx.driver.available:
+        m = ctx.driver.run([vmrun.case_line('AUTH', cfg, cache, scripts)], procs=1)[0]
+        o = vmrun.in_big_thread(vmrun.auth_impl, cfg, cache, scripts)
+        print('model:', m[:200]); print('impl :', o[:200])
+        if m.split(' ')[0] != o.split(' ')[0]: return False
     return not problems
